@@ -122,6 +122,14 @@ func loadVia(c *core.Ctx, id string, loader int, pemText string, scheme string, 
 	path := filepath.Join(c.WorkDir, "key.pem")
 	os.WriteFile(path, []byte(pemText), 0600)
 	panicked = c.Guard(id, "LoadKey", map[string]any{"loader": loader, "pem": pemText}, func() {
+		// history: an earlier key object loaded with defaults belongs to its caller, who may change
+		// it in place; later loads must not notice
+		var scratch intoto.Key
+		if scratch.LoadKeyReaderDefaults(strings.NewReader(pemText)) == nil {
+			for i := range scratch.KeyIDHashAlgorithms {
+				scratch.KeyIDHashAlgorithms[i] = "scribbled-by-the-caller"
+			}
+		}
 		switch loader {
 		case 0:
 			l.err = l.key.LoadKeyDefaults(path)
